@@ -215,6 +215,39 @@ def run_case(case):
                 resources={}, attrs={}, var_coords=var_coords,
                 explicit_names=not xobj, tag="partial")
 
+        # ---------------- somebody else grows one more batch; a second
+        # partial reap on the SAME crop object must see it
+        still = [i for i in range(1, B + 1) if i not in fin]
+        if len(still) >= 2 and raw:
+            extra_id = still[case.get("extra_pick", 0) % len(still)]
+            with under_test("grow one more batch through another object"):
+                other = x.Crop(name="c9", parent_dir=root)
+                x.grow(extra_id, crop=other, verbosity=0)
+            fin2 = fin | {extra_id}
+            with under_test("second reap(allow_incomplete=True)"):
+                part2 = crop.reap(allow_incomplete=True)
+            is_fin2 = {loc: where[models.canon_kw(dict(zip(largs, loc)))]
+                       in fin2 for loc in locs}
+
+            def check_cell2(got, loc):
+                if is_fin2[loc]:
+                    want = models.result_of(kind, dict(zip(largs, loc)))
+                    require(models.deep_eq(got, want),
+                            "second-partial-reap-stale",
+                            lambda: f"at {loc} (batch grown meanwhile): got "
+                                    f"{got!r:.200} expected {want!r:.200}")
+                else:
+                    prob = models.placeholder_problem(got, example)
+                    require(prob is None, "unfinished-cell-not-missing",
+                            lambda: f"second partial reap at {loc}: {prob}")
+            if cases is None:
+                def walk2(node, vs, prefix):
+                    if not vs:
+                        return check_cell2(node, prefix)
+                    for sub, v in zip(node, vs[0]):
+                        walk2(sub, vs[1:], prefix + (v,))
+                walk2(part2, vals, ())
+
         # ---------------- grow the rest: the full reap is exact
         with under_test("grow_missing + reap"):
             crop2 = x.Crop(name="c9", parent_dir=root) if raw else crop
@@ -320,7 +353,8 @@ def enumerate_cases(tier, seed):
                         sh = shuffle if real != "cases" else False
                         yield {"B": B, "N": N, "spec": spec,
                                "finished": finished, "shuffle": sh,
-                               "mode": mode, "real": real}
+                               "mode": mode, "real": real,
+                               "extra_pick": counter % 3}
 
 
 PHASES = [
